@@ -55,6 +55,7 @@ def gen_service_program(rng: Any, *, crash: bool = False) -> dict[str, Any]:
             n_services += 1
             action = rng.choice(ACTIONS)
             spec = {"action": action, "cleanup": rng.choice([0, 0, 0.5, 1, 2]), "action_delay": rng.choice([0, 0.5]) if action == "async_callable" else 0,
+                    "action_starts_helper": action == "async_callable" and rng.random() < 0.4,
                     "ends_by_itself": None, "started_value": rng.random() < 0.5, "own_teardown": rng.random() < 0.4,
                     "spawn_via": rng.choice(["method", "shortcut"]),
                     # how a callable teardown action is given: plain function, functools.partial, or an object with __call__
@@ -89,7 +90,7 @@ def gen_service_program(rng: Any, *, crash: bool = False) -> dict[str, Any]:
             party.append(["resource", fresh()])
     prog = {"backend": rng.choice(["asyncio", "trio"]), "sched_seed": rng.randrange(1 << 30), "shuffle": rng.random() < 0.5,
             "nested": rng.random() < 0.5, "steps": steps, "crash": None, "party": party, "in_component": rng.random() < 0.3,
-            "block_raises": (not crash) and rng.random() < 0.2}
+            "block_raises": (not crash) and rng.random() < 0.2, "same_names": rng.random() < 0.3}
     if crash:
         svc = [s for s in steps if s[0] == "service"]
         victim = rng.choice(svc)
@@ -129,9 +130,15 @@ class BlockFailed(Exception):
 
 
 class ServiceRun:
+    def svc_name(self, sid: int) -> str:
+        """the name is a label for humans: several service tasks of one context may carry the same one (two instances of one
+        component class both starting "HTTP server")"""
+        return "worker" if self.prog.get("same_names") else f"svc{sid}"
+
     def __init__(self, prog: dict[str, Any]) -> None:
         self.prog = prog
         self.from_child_starts = 0
+        self.helpers_ran = 0
         self.trace = Trace()
         self.t0 = 0.0
         self.boundary: BaseException | None = None
@@ -231,6 +238,13 @@ class ServiceRun:
                 run.log("svc-action", sid)
                 if spec["action_delay"]:
                     await anyio.sleep(spec["action_delay"])
+                if spec.get("action_starts_helper") and run.owner is not None:
+                    # stopping this service needs a short-lived helper service of the same context (one that drains a queue, say):
+                    # starting a service task while the context is being torn down is allowed, also from here
+                    async def helper() -> None:
+                        run.helpers_ran += 1
+
+                    await run.owner.start_service_task(helper, run.svc_name(sid) + "-drain")
                 stop.set()
         elif action == "raising_callable":
             def teardown_action() -> None:
@@ -362,7 +376,7 @@ class ServiceRun:
                     run.log("td-run", f"x{tid}")
                     func, action = run.make_service(spec["sid"], spec, list(registered))
                     run.log("svc-spawn", spec["sid"], visible_expected=sorted(f"r{r}" for r in registered), during_teardown=True)
-                    val = await ctx.start_service_task(func, f"svc{spec['sid']}", teardown_action=action)
+                    val = await ctx.start_service_task(func, run.svc_name(spec['sid']), teardown_action=action)
                     run.log("reg", f"s{spec['sid']}", start_value=repr(val), during_teardown=True)
 
                 add_teardown_callback(starter)
@@ -390,14 +404,14 @@ class ServiceRun:
 
                     async with Context() as tmp_ctx:
                         tmp_ctx.add_resource(ST0(), f"tmp{sid}")
-                        val = await ctx.start_service_task(func, f"svc{sid}", **act_kw)
+                        val = await ctx.start_service_task(func, run.svc_name(sid), **act_kw)
                     self.from_child_starts += 1
                 elif spec["spawn_via"] == "shortcut":
-                    val = await start_service_task(func, f"svc{sid}", **act_kw)
+                    val = await start_service_task(func, run.svc_name(sid), **act_kw)
                 elif sid % 2:
-                    val = await ctx.start_service_task(func=func, name=f"svc{sid}", **act_kw)  # all by keyword
+                    val = await ctx.start_service_task(func=func, name=run.svc_name(sid), **act_kw)  # all by keyword
                 else:
-                    val = await ctx.start_service_task(func, f"svc{sid}", **act_kw)
+                    val = await ctx.start_service_task(func, run.svc_name(sid), **act_kw)
                 self.start_values[sid] = val
                 self.log("reg", f"s{sid}", start_value=repr(val))
             elif kind == "sleep":
@@ -652,6 +666,10 @@ def check_service(run: ServiceRun) -> tuple[list[dict[str, Any]], dict[str, int]
         inc("registrations_made_from_a_component")
     if prog.get("block_raises"):
         inc("owner_blocks_ending_with_an_exception")
+    if run.helpers_ran:
+        inc("teardown_actions_that_started_a_helper_service_task", run.helpers_ran)
+    if prog.get("same_names") and sum(1 for st in prog["steps"] if st[0] == "service") >= 2:
+        inc("contexts_with_several_service_tasks_of_the_same_name")
     if run.from_child_starts:
         inc("services_started_on_the_owner_while_a_child_context_was_current", run.from_child_starts)
     return V, c
@@ -714,8 +732,9 @@ def gen_factory_program(rng: Any) -> dict[str, Any]:
                                            "outcome": "return", "exc": "ValueError", "task_status": False, "name": None}
             if spec["from"] == "task":
                 # spawned by another spawned task, right when that one starts
-                spec["parent_spec"] = {"tid": fresh(), "via": "start_task_soon", "from": "owner", "dur": rng.choice([0.125, 1.125]), "outcome": "return",
-                                       "exc": "ValueError", "task_status": False, "name": None}
+                pvia = rng.choice(["start_task_soon", "start_task_soon", "start_task"])
+                spec["parent_spec"] = {"tid": fresh(), "via": pvia, "from": "owner", "dur": rng.choice([0.125, 1.125]), "outcome": "return",
+                                       "exc": "ValueError", "task_status": pvia == "start_task", "name": None}
             cmds.append(["spawn", spec])
             live.append(tid)
         elif r < 0.55 and live:
@@ -783,10 +802,12 @@ class FactoryRun:
                     run.log("task-ctx-closed", tid)
 
                 ctx.add_teardown_callback(own_teardown)
-            if task_status is not None:
-                task_status.started(("sv", tid))
             child = spec.get("child_spec")
+            if task_status is not None and not (child is not None and tid % 2):
+                task_status.started(("sv", tid))
             if child is not None:
+                # (every other parent that reports its start spawns the child *before* it calls started(): a task may use its
+                # factory while whoever started it is still inside start_task())
                 try:
                     await run.spawn(child, "task", ctx)
                 except RuntimeError as e:
@@ -795,6 +816,8 @@ class FactoryRun:
                     # (as below for a last-moment child: the application is already going down and the factory refused the spawn;
                     # the statement fixes no outcome for that, and this task simply goes on)
                     run.log("spawn-failed", child["tid"], exc=describe_exc(e), after_fatal=True)
+                if task_status is not None and tid % 2:
+                    task_status.started(("sv", tid))
             try:
                 if spec["dur"]:
                     await anyio.sleep(spec["dur"])
